@@ -92,6 +92,10 @@ def make_data(scn):
         traces = v.astype(td)
     else:
         traces = (raw_f[:, :m] * scn.get('sigma', 1.0) + scn.get('offset', 0)).astype(td)
+        for r_, c_, v_ in scn.get('nonfinite') or ():
+            # a few cells that are not finite (a preprocess that divided by zero, an acquisition glitch): the samples they sit in have no defined
+            # statistic whatever the split; the other samples must not notice
+            traces[r_, c_ % m] = {'nan': np.nan, 'inf': np.inf, 'ninf': -np.inf}[v_]
     W = int(np.prod(scn['wshape']))
     pool = np.asarray(scn['pool'])
     if W > WMAX:
@@ -333,6 +337,10 @@ def gen_history(seed, tier, prop, kinds_allowed):
             batches, shape = _partition(r, n)
             scn['ops'] = [['u', a, b] for a, b in batches]
     scn['split_shape'] = shape
+    nf = rng.stream(seed, 'nonfinite')
+    if regime == 'float' and m >= 2 and nf.random() < 0.25 and kind in ('cpa', 'cpaalt', 'dpa', 'anova', 'nicv', 'snr'):
+        rows = sorted(set(x for a_, b_ in batches for x in range(a_, b_)))
+        scn['nonfinite'] = [[nf.choice(rows), nf.randrange(m), nf.choice(['nan', 'nan', 'inf', 'ninf'])] for _ in range(nf.choice([1, 1, 2, 4]))]
     if rng.stream(seed, 'recycle').random() < 0.15:
         scn['recycle'] = True
     # knobs: clock script and worker counts (always under a simulated clock)
